@@ -14,3 +14,4 @@ def rules(ctx):
     S.cache_reset_rules(ctx)
     S.header_codec_rules(ctx)
     S.child_pair_rules(ctx)
+    S.root_pair_rules(ctx)
